@@ -127,7 +127,8 @@ type lifeMon struct {
 	next map[int]string
 	plan map[int][]string // per socket: actions for successive new pipes
 
-	idHeldChecks int // Detached callbacks in which the allocator was asked whether the id is still reserved
+	slowCallbacks int // Attached callbacks that closed their pipe and then kept running past the reconnect time
+	idHeldChecks  int // Detached callbacks in which the allocator was asked whether the id is still reserved
 }
 
 func newLifeMon(c *mon.Case) *lifeMon {
@@ -197,6 +198,14 @@ func (m *lifeMon) hook(sock int) mangos.PipeEventHook {
 			m.mu.Unlock()
 			if act == "close-in-attached" {
 				p.Close()
+				if p.ID()%2 == 0 {
+					// a callback that goes on for a while after closing its pipe (logging, bookkeeping):
+					// longer than the reconnect time, so a dialer's redial falls inside it
+					mon.Sleep(12 * time.Millisecond)
+					m.mu.Lock()
+					m.slowCallbacks++
+					m.mu.Unlock()
+				}
 			}
 			return
 		case mangos.PipeEventDetached:
@@ -379,6 +388,7 @@ func (m *lifeMon) final(wrapped bool) {
 		c.Count("shape:"+s, n)
 	}
 	c.Count("detached_callbacks_with_id_still_reserved_checked", m.idHeldChecks)
+	c.Count("attached_callbacks_outlasting_reconnect_time", m.slowCallbacks)
 	if ids := verifhooks.PipeIDsInUse(); len(ids) > 0 {
 		c.Logf("ids still in use: %x", ids)
 	}
